@@ -31,10 +31,10 @@ type fetchSpec struct {
 	ID     int
 	Deps   []int // declared DependsOnFetchIDs
 	Flavor flavor
-	DS     int    // entity flavours: subgraph number (same number = merge candidates)
-	DupOf  int    // -1, or the id of the fetch this one is an exact duplicate of
-	Parent int    // nested kind: -1 = root level, else id of the fetch providing the object this fetch hangs under
-	MergeM bool   // nested kind, root level only: result merged under MergePath ["m<id>"]
+	DS     int  // entity flavours: subgraph number (same number = merge candidates)
+	DupOf  int  // -1, or the id of the fetch this one is an exact duplicate of
+	Parent int  // nested kind: -1 = root level, else id of the fetch providing the object this fetch hangs under
+	MergeM bool // nested kind: result merged into the item under MergePath ["m<id>"]
 	Fail   failMode
 	Root   bool // entity kind: plain root fetch providing e / l
 }
@@ -96,11 +96,12 @@ func (p *planSpec) objPath(id int) []string {
 	}
 	var base []string
 	if f.Parent >= 0 {
-		base = p.objPath(f.Parent)
-	} else if f.MergeM {
-		base = []string{fmt.Sprintf("m%d", p.class(id))}
+		base = append(base, p.objPath(f.Parent)...)
 	}
-	return append(append([]string(nil), base...), fmt.Sprintf("f%d", p.class(id)))
+	if f.MergeM {
+		base = append(base, fmt.Sprintf("m%d", p.class(id)))
+	}
+	return append(base, fmt.Sprintf("f%d", p.class(id)))
 }
 
 // itemPath: absolute path of the item the fetch is executed on (FetchPath).
@@ -633,6 +634,7 @@ func randomNested(rng *rand.Rand, nMin, nMax int) *planSpec {
 			continue
 		}
 		nodes[t].parent = rng.IntN(t)
+		nodes[t].mergeM = rng.IntN(5) == 0
 		switch rng.IntN(3) {
 		case 0: // no declared dependency: the path rule must add it
 		case 1:
